@@ -30,6 +30,9 @@ type c09Case struct {
 	Timeout   bool   `json:"timeout_middleware,omitempty"`           // handlers.Timeout(1h) wraps the chain: it swaps c.Req and cancels the derived context in a defer
 	WrapResp  bool   `json:"wrap_resp_without_defer,omitempty"`      // a global middleware wraps c.Resp and restores it after Next() - not in a defer
 	Twice     bool   `json:"panic_request_twice"`
+	// Mounted: the request arrives on a front router (no hook of its own) whose handler hands its context to this router
+	// with HandleContext: the hook of the router that runs the chain must contain the panic
+	Mounted bool `json:"mounted_behind_front_router,omitempty"`
 }
 
 type c09Val struct{ A, B int }
@@ -42,6 +45,10 @@ func c09Value(kind string) any {
 		return c09Err
 	case "struct":
 		return c09Val{1, 2}
+	case "abort-handler":
+		return http.ErrAbortHandler // what a reverse proxy panics with
+	case "int":
+		return 42
 	}
 	return "boom-string"
 }
@@ -180,7 +187,13 @@ func c09Run(c c09Case, st *fw.Stats) []fw.Viol {
 		w = &recW{h: http.Header{}}
 		cr.log = cr.log[:0]
 		cr.k.depth = 1 // the probe skips recorder-specific fields
-		pv = try(func() { cr.k.r.ServeHTTP(w, httptest.NewRequest(m, p, nil)) })
+		var entry http.Handler = cr.k.r
+		if c.Mounted {
+			front := rux.New()
+			front.NotFound(func(ctx *rux.Context) { cr.k.r.HandleContext(ctx) })
+			entry = front
+		}
+		pv = try(func() { entry.ServeHTTP(w, httptest.NewRequest(m, p, nil)) })
 		return
 	}
 	reps := 1
@@ -269,11 +282,11 @@ func c09Run(c c09Case, st *fw.Stats) []fw.Viol {
 	// the follow-up that panics by itself comes last, so that the twin stays panic-free until then
 	order := make([]string, 0, len(kindNames))
 	for _, k := range kindNames {
-		if k != "panic" {
+		if k != "panic" && k != "panic-status" {
 			order = append(order, k)
 		}
 	}
-	order = append(order, "panic")
+	order = append(order, "panic-status", "panic")
 	for _, kind := range order {
 		st.Evals++
 		st.Nontrivial++
@@ -293,7 +306,7 @@ func c09Run(c c09Case, st *fw.Stats) []fw.Viol {
 
 func c09Gen(tier string, emit func(c09Case)) {
 	hooks := []string{"absent", "nothing", "status", "status-body", "body"}
-	values := []string{"string", "error", "struct"}
+	values := []string{"string", "error", "struct", "abort-handler", "int"}
 	maxN := 3
 	if tier == "thorough" {
 		maxN = 5
@@ -312,6 +325,9 @@ func c09Gen(tier string, emit func(c09Case)) {
 								if f == 0 && vi == 1 {
 									emit(c09Case{Where: "chain", N: n, Split: sp, Pos: pos, When: when, Value: v, Hook: hk, Timeout: true})
 									emit(c09Case{Where: "chain", N: n, Split: sp, Pos: pos, When: when, Value: v, Hook: hk, WrapResp: true})
+								}
+								if f == 0 || f == 2 {
+									emit(c09Case{Where: "chain", N: n, Split: sp, Pos: pos, When: when, Value: v, Hook: hk, Committed: f&2 != 0, Mounted: true})
 								}
 								if f == 0 && vi == 0 {
 									// a status was selected (204 / 304 / 201) but nothing committed when the panic strikes
@@ -338,6 +354,7 @@ func c09Gen(tier string, emit func(c09Case)) {
 							for f := 0; f < 4; f++ {
 								emit(c09Case{Where: where, N: n, Pos: pos, When: when, Value: v, Hook: hk, PanicsMW: f&1 != 0, Committed: f&2 != 0})
 							}
+							emit(c09Case{Where: where, N: n, Pos: pos, When: when, Value: v, Hook: hk, Mounted: true})
 						}
 					}
 				}
@@ -349,7 +366,7 @@ func c09Gen(tier string, emit func(c09Case)) {
 var c09Spec = fw.Spec[c09Case]{
 	ID:    "C09",
 	Level: "model_checking",
-	Rule: "complete product: chain shapes n<=3 (thorough 5) x every global/group/route split x every panic position x {before Next, after Next, without Next} x panic value {string, error, struct} x hook {absent, does nothing, status only, status+body, body only} x {PanicsHandler middleware} x {a byte committed before the panic} (+ the panic request issued twice), plus panics inside NotFound / NotAllowed / OnError handlers; each followed by every one of 15 follow-up request kinds compared with a fresh identical router; " +
+	Rule: "complete product: chain shapes n<=3 (thorough 5) x every global/group/route split x every panic position x {before Next, after Next, without Next} x panic value {string, error, struct, http.ErrAbortHandler, int} x hook {absent, does nothing, status only, status+body, body only} x {PanicsHandler middleware} x {a byte committed before the panic} (+ the panic request issued twice) (+ the router mounted behind a front router that passes its context on with HandleContext), plus panics inside NotFound / NotAllowed / OnError handlers; each followed by every one of 15 follow-up request kinds compared with a fresh identical router; " +
 		"every case is non-trivial (a panic is raised in each)",
 	Assume: []string{"for the in-chain PanicsHandler only 'the panic does not escape' and 'follow-ups are unaffected' are asserted (the statement promises nothing else for it)", "when the hook sets no status, any single committed status is accepted"},
 	Bounds: func(tier string) map[string]any {
